@@ -197,3 +197,14 @@ Record bytes_iter_st : Set := mkBytesIt { bi_bytes : list N; bi_state : state; b
 Definition set_bi_bytes (i : bytes_iter_st) (v : list N) : bytes_iter_st := mkBytesIt v (bi_state i) (bi_utf8 i).
 Definition set_bi_state (i : bytes_iter_st) (v : state) : bytes_iter_st := mkBytesIt (bi_bytes i) v (bi_utf8 i).
 Definition set_bi_utf8 (i : bytes_iter_st) (v : u8parser) : bytes_iter_st := mkBytesIt (bi_bytes i) (bi_state i) v.
+
+(* ---- vocabulary of the function translator, second part (StripStr / StripBytes, tools/gen_fn_strip.py) ----
+   Small adapters only. *)
+(* pub struct StripStr { state }  ==  the state itself *)
+Definition sstr_state (s : state) : state := s.
+Definition set_sstr_state (_ v : state) : state := v.
+Definition sstr_mk (s : state) : state := s.
+(* pub struct StripBytes { state, utf8parser } *)
+Record strip_bytes_st : Set := mkStripBytesSt { sbs_state : state; sbs_utf8 : u8parser }.
+Definition set_sbs_state (x : strip_bytes_st) (v : state) : strip_bytes_st := mkStripBytesSt v (sbs_utf8 x).
+Definition set_sbs_utf8 (x : strip_bytes_st) (v : u8parser) : strip_bytes_st := mkStripBytesSt (sbs_state x) v.
